@@ -22,7 +22,8 @@ from sim.threads import Injected, InjectedBase, src_prefix
 
 PROP = 'C09'
 POOL_CLASSES = ['rng-sensitive', 'rng-sensitive', 'split', 'merge+split', 'demo-like', 'two-far',
-                'msa-crop', 'single', 'multi-hit', 'many-sets']
+                'msa-crop', 'single', 'multi-hit', 'many-sets', 'high-close', 'high-close',
+                'two-valued', 'asym-split', 'borderline']
 HIST_PER_RUN = 4
 BODY_FNS = ('mock_layers', 'sin_layer', 'flat_layer')
 _BODY_LINES = [None]
@@ -418,7 +419,7 @@ def _replay_fresh(case):
 # ------------------------------------------------------------------------------------------
 def plan(tier, master):
     n = 80 if tier == 'quick' else 1250
-    return [{'seed': kernel.run_seed(PROP, master, i), 'fresh': (i % 5 == 0) if tier == 'quick'
+    return [{'seed': kernel.run_seed(PROP, master, i), 'fresh': (i % 3 == 0) if tier == 'quick'
              else (i % 6 == 0)} for i in range(n)]
 
 
